@@ -429,18 +429,20 @@ def _config_stacks(kind: str, thorough: bool):
                     for cmd in ({}, {"names": ["cmd"]}):
                         yield files, cmd, "names", [], True
     elif kind == "disable_all":
-        sect = list(itertools.product((None, True, False), (None, True, False)))  # (disable_all, code_a)
-        for (da0, c0), (da1, c1) in itertools.product(sect, sect):
+        sect = list(itertools.product((None, True, False), (None, True, False)))  # (disable_all, the code's own setting)
+        # code_a is on by default, code_off is an opt-in code (off by default)
+        for key, key_default in (("code_a", True), ("code_off", False)):
+          for (da0, c0), (da1, c1) in itertools.product(sect, sect):
             top: Dict[str, object] = {}
             if da0 is not None:
                 top["disable_all"] = da0
             if c0 is not None:
-                top["code_a"] = c0
+                top[key] = c0
             ov: Dict[str, object] = {"module": "a"}
             if da1 is not None:
                 ov["disable_all"] = da1
             if c1 is not None:
-                ov["code_a"] = c1
+                ov[key] = c1
             for base in (None, True, False):  # an extended file's top-level setting
                 f0 = dict(top)
                 if len(ov) > 1:
@@ -448,9 +450,9 @@ def _config_stacks(kind: str, thorough: bool):
                 files = [f0]
                 if base is not None:
                     f0["extend_config"] = "file1"
-                    files.append({"code_a": base})
-                for code in ("code_a", "code_b"):
-                    yield files, {}, code, True, False
+                    files.append({key: base})
+                for code, code_default in ((key, key_default), ("code_b", True)):
+                    yield files, {}, code, code_default, False
 
 
 def _config_chunk(args):
